@@ -200,7 +200,9 @@ func Open(ctx context.Context, S3 S3Interface, cfg Config, opts OpenOptions, whe
 	var skipUnreadable bool
 	var kvVersion int
 	var err error
-	persists := []mast.Persist{rootPersist}
+	// A listed version can be retired (copied to merged/, deleted from current/)
+	// by a concurrent commit before it is fetched: look in both places.
+	persists := []mast.Persist{rootPersist, mergedPersist}
 	if opts.OnlyVersions != nil {
 		versionsToLoad = opts.OnlyVersions
 		persists = []mast.Persist{mergedPersist, rootPersist}
